@@ -68,7 +68,64 @@ def classify(case, d):
     return None
 
 
+def fixed_horizon_bound_violation(case):
+    """True if the control grid is numeric (fixed t0 and T, grid not localized, not free) and one of its intervals is
+    shorter than min / longer than max: no NLP constraint can enforce the bound, the problem must be refused"""
+    from ..common import Fr
+    m = case["method"]
+    g = m.get("grid") or {}
+    if "fixed" not in case.get("T", {}) or "fixed" not in case.get("t0", {"fixed": 0}):
+        return False
+    if g.get("localize_t0") or g.get("localize_T") or g.get("class", "Uniform") == "Free":
+        return False
+    lo = float(Fr(g["min"])) if g.get("min") is not None else 0.0
+    hi = float(Fr(g["max"])) if g.get("max") is not None else float("inf")
+    N, T = m["N"], float(Fr(case["T"]["fixed"]))
+    cls = g.get("class", "Uniform")
+    if cls == "Uniform":
+        nodes = [i / N for i in range(N + 1)]
+    elif cls == "Geometric":
+        gr = float(Fr(g.get("growth", 1)))
+        if not g.get("local") and N > 1:
+            gr = gr ** (1.0 / (N - 1))
+        w, acc = 1.0, [0.0]
+        for _ in range(N):
+            acc.append(acc[-1] + w)
+            w *= gr
+        nodes = [a / acc[-1] for a in acc]
+    elif cls == "Function":
+        nodes = [float(Fr(v)) for v in g["nodes"]]
+    elif cls == "Density":
+        nodes = density_nodes(float(Fr(g["dens"][0])), float(Fr(g["dens"][1])), N)
+    else:
+        return False
+    lens = [T * (b - a) for a, b in zip(nodes, nodes[1:])]
+    tol = 1e-9
+    return any(L < lo - tol for L in lens) or any(L > hi + tol for L in lens)
+
+
 class C06Prop(NlpProp):
+    def judge(self, cps, rr, mv):
+        # a numeric control grid that violates the declared min/max must be refused (and only then)
+        keep, extra_dis, refused = [], [], 0
+        for i, (case, pts) in enumerate(cps):
+            r = rr[i]
+            viol = fixed_horizon_bound_violation(case)
+            raised = "error" in r and "min/max bounds of the time grid" in str(r.get("error"))
+            if viol and raised:
+                refused += 1
+                continue
+            if viol and not raised and "error" not in r:
+                extra_dis.append({"property": self.pid, "case": case, "points": pts, "finding_key": None,
+                                  "what": [{"what": "fixed horizon: a control interval violates the grid's declared min/max, yet the "
+                                                    "problem was transcribed (the bound is silently dropped)"}]})
+                continue
+            keep.append(i)
+        sub = [cps[i] for i in keep]
+        dis, nontriv, dist, skipped = NlpProp.judge(self, sub, [rr[i] for i in keep], {j: mv[i] for j, i in enumerate(keep) if i in mv})
+        dist["refused: min/max violated by a fixed horizon"] = refused
+        return dis + extra_dis, nontriv, dist, skipped
+
     def gen_cases(self, seed, n, opts, npts):
         import random
         out = []
